@@ -104,6 +104,17 @@ func (x *Exec) callFunc(st *State, fr *Frame, in ssa.Instruction, callee *ssa.Fu
 		k(st, res)
 		return
 	}
+	if isLoggingCall(callee) {
+		// logging has no effect on the values this library computes (A-LOG); results, if any, are arbitrary
+		x.assume("A-LOG")
+		var res []Value
+		rs := callee.Signature.Results()
+		for i := 0; i < rs.Len(); i++ {
+			res = append(res, x.freshValue(st, rs.At(i).Type(), "log."+callee.Name(), false))
+		}
+		k(st, res)
+		return
+	}
 	if spec, ok := x.W.Specs[key]; ok && !spec.Inline && callee != x.fn {
 		x.callContract(st, fr, in, callee, spec, args, k)
 		return
@@ -940,4 +951,23 @@ func (x *Exec) ghostArgs(pre *State, callee *ssa.Function, b *Behavior) (map[str
 		out[g.Name] = val
 	}
 	return out, true
+}
+
+// isLoggingCall: the repository's logger package (except the process-ending Fatal family) and the print functions of fmt / log.
+func isLoggingCall(fn *ssa.Function) bool {
+	p := pkgPathOf(fn)
+	n := fn.Name()
+	if strings.Contains(n, "Fatal") || strings.Contains(n, "Panic") {
+		return false
+	}
+	if p == modPath+"/logger" {
+		return true
+	}
+	if p == "log" && (strings.HasPrefix(n, "Print")) {
+		return true
+	}
+	if p == "fmt" && (n == "Println" || n == "Printf" || n == "Print") {
+		return true
+	}
+	return false
 }
